@@ -2,6 +2,8 @@ package rules
 
 import (
 	"fmt"
+	"go/types"
+	"strings"
 
 	"dtcheck/internal/core"
 
@@ -137,4 +139,211 @@ func c13StatusMapping(r *R, rule string) {
 		}
 	}
 	r.c.Floor(rule, n, 4, "paths through MigrateChannelState2To3")
+}
+
+func init() {
+	register("C13", "Decides the structure of the v2→v3 migration: every field of the v3 record is set in the returned value and every field shared with the v2 record receives old.<same field> except Status and the two pause flags, which follow the stated status mapping on every path (value flow + path enumeration over the migration function); the generated codec of the v2 record agrees with its struct; channels.New builds the state machine group through the versioned-FSM constructor with target version \"3\" and the migration list from GetChannelStateMigrations (no-op to \"2\", 2→3), every Channels method reaches state only through that gated group, Channels.Start is the migrate function; manager.Start publishes readiness exactly once with the migration outcome. Not decided: decoding of arbitrary v2 byte strings; go-ds-versioning's readiness gate itself.",
+		func(c *core.Ctx) {
+			r := newR(c)
+			c.Assumption("go-ds-versioning: every fsm.Group method of the migrated FSM checks ReadyError() first and migration runs once (DESIGN §2)")
+			c13Copy(r)
+			c13StatusMapping(r, "C13.2")
+			codecAgreement(r, "C13.3", "channels/internal/migrations", "ChannelStateV2")
+			c13Versioned(r)
+			c13Ready(r)
+		})
+}
+
+// C13.1: field-by-field copy.
+func c13Copy(r *R) {
+	fn := r.fn("C13.1", "channels/internal/migrations", "", "MigrateChannelState2To3")
+	if fn == nil {
+		return
+	}
+	newT, _ := r.p.ByRel["channels/internal"].Types.Scope().Lookup("ChannelState").(*types.TypeName)
+	oldT, _ := r.p.ByRel["channels/internal/migrations"].Types.Scope().Lookup("ChannelStateV2").(*types.TypeName)
+	if newT == nil || oldT == nil {
+		r.c.Stuck("C13.1", "types", "", "record types not found")
+		return
+	}
+	ns, os := newT.Type().Underlying().(*types.Struct), oldT.Type().Underlying().(*types.Struct)
+	oldFields := map[string]bool{}
+	for i := 0; i < os.NumFields(); i++ {
+		oldFields[os.Field(i).Name()] = true
+	}
+	var rec *ssa.Alloc
+	for _, b := range fn.Blocks {
+		for _, ins := range b.Instrs {
+			if a, ok := ins.(*ssa.Alloc); ok && a.Heap && core.TypeShort(a.Type()) == "*channels/internal.ChannelState" {
+				rec = a
+			}
+		}
+	}
+	if rec == nil {
+		r.c.Stuck("C13.1", "record", r.p.Pos(fn.Pos()), "no ChannelState literal in the migration")
+		return
+	}
+	stores := litStores(rec)
+	special := map[string]bool{"Status": true, "InitiatorPaused": true, "ResponderPaused": true}
+	for i := 0; i < ns.NumFields(); i++ {
+		f := ns.Field(i).Name()
+		sts := stores[f]
+		if len(sts) != 1 {
+			r.c.Bad("C13.1", "field:"+f, r.p.Pos(fn.Pos()), fmt.Sprintf("field %s of the migrated record is set %d times (expected once): the value stored by the previous schema is dropped", f, len(sts)))
+			continue
+		}
+		if special[f] {
+			r.c.OK("C13.1", "field:"+f, r.p.InstrPos(sts[0]), "set (value decided by C13.2)")
+			continue
+		}
+		got := r.d.Of(sts[0].Val)
+		if oldFields[f] {
+			r.c.Check(got == "oldChannelState."+f, "C13.1", "field:"+f, r.p.InstrPos(sts[0]), "copied from the old record's "+f, fmt.Sprintf("migrated %s is %s instead of oldChannelState.%s", f, got, f))
+		} else {
+			r.c.Bad("C13.1", "field:"+f, r.p.InstrPos(sts[0]), "field "+f+" has no counterpart in the v2 record and no rule says how to fill it")
+		}
+	}
+	// returned value is that record, error nil
+	for i, pt := range r.pathsOf("C13.1", fn) {
+		if pt.End == "return" {
+			r.c.Check(retAlloc(pt, 0) == rec && pt.RetDesc(1) == "nil", "C13.1", fmt.Sprintf("returns-record#%d", i+1), r.p.Pos(fn.Pos()), "returns the migrated record", "a path does not return the migrated record")
+		}
+	}
+	// the no-op migration really is one
+	if no := r.fn("C13.1", "channels/internal/migrations", "", "NoOpChannelState0To2"); no != nil {
+		ps, _ := r.p.Paths(no)
+		r.c.Check(len(ps) == 1 && ps[0].RetDesc(0) == "oldChannelState" && ps[0].RetDesc(1) == "nil", "C13.1", "noop-0-to-2", r.p.Pos(no.Pos()), "identity", "NoOpChannelState0To2 is not the identity")
+	}
+}
+
+func c13Versioned(r *R) {
+	nw := r.fn("C13.4", "channels", "", "New")
+	if nw != nil {
+		site := r.one("C13.4", nw, "github.com/filecoin-project/go-ds-versioning/pkg/fsm.NewVersionedFSM")
+		gm := r.one("C13.4", nw, "channels/internal/migrations.GetChannelStateMigrations")
+		if site != nil && gm != nil {
+			r.argIs("C13.4", site, 0, "ds", "the datastore")
+			r.argIs("C13.4", site, 2, r.v(gm)+"#0", "the migration list")
+			r.argIs("C13.4", site, 3, `"3"`, "the target schema version")
+			r.guarded("C13.4", site, "migrations-built", "+"+r.v(gm)+"#1==nil")
+			// results stored to the two fields
+			okG, okM := false, false
+			for _, b := range nw.Blocks {
+				for _, ins := range b.Instrs {
+					if st, ok := ins.(*ssa.Store); ok {
+						if fa, ok := st.Addr.(*ssa.FieldAddr); ok {
+							if _, fld := core.FieldOwner(fa); fld == "stateMachines" && r.d.Of(st.Val) == r.v(site)+"#0" {
+								okG = true
+							} else if fld == "migrateStateMachines" && r.d.Of(st.Val) == r.v(site)+"#1" {
+								okM = true
+							}
+						}
+					}
+				}
+			}
+			r.c.Check(okG && okM, "C13.4", "group-and-migrate-stored", r.p.InstrPos(site), "gated group and migrate function kept", "channels.New does not keep the versioned FSM's group and migrate function")
+		}
+	}
+	// migration list
+	gl := r.fn("C13.4", "channels/internal/migrations", "", "GetChannelStateMigrations")
+	if gl != nil {
+		var descs []string
+		for _, s := range r.sites(gl, false, "github.com/filecoin-project/go-ds-versioning/pkg/versioned.NewVersionedBuilder") {
+			descs = append(descs, r.d.Of(s.Common().Args[0])+"→"+r.d.Of(s.Common().Args[1]))
+		}
+		want := []string{"func:channels/internal/migrations.NoOpChannelState0To2→\"2\"", "func:channels/internal/migrations.MigrateChannelState2To3→\"3\""}
+		r.c.Check(sameSet(descs, want), "C13.4", "migration-list", r.p.Pos(gl.Pos()), "no-op→2, 2→3", "migration builders are {"+join(descs)+"}")
+		ov := r.sites(gl, false, "(github.com/filecoin-project/go-ds-versioning/pkg/versioned.Builder).OldVersion")
+		ok := len(ov) == 1 && r.d.Of(ov[0].Common().Args[0]) == `"2"`
+		r.c.Check(ok, "C13.4", "migration-2to3-oldversion", r.p.Pos(gl.Pos()), "2→3 declared with OldVersion(\"2\")", "the 2→3 migration is not declared with OldVersion(\"2\")")
+	}
+	// Channels.Start is the migrate function
+	st := r.fn("C13.4", "channels", "Channels", "Start")
+	if st != nil {
+		ps, _ := r.p.Paths(st)
+		r.c.Check(len(ps) == 1 && ps[0].RetDesc(0) == "dyn:c.migrateStateMachines(_)", "C13.4", "Channels.Start", r.p.Pos(st.Pos()), "runs the migrate function", "Channels.Start does not return the result of the migrate function")
+	}
+	// every access to durable state goes through c.stateMachines (the gated group)
+	n := 0
+	for _, fn := range r.p.Prod {
+		top := core.TopLevel(fn)
+		if top.Pkg != r.p.SSAByRel["channels"] {
+			continue
+		}
+		for _, ci := range core.CallSites(fn) {
+			name := r.p.CalleeName(ci.Common())
+			if !strings.HasPrefix(name, "(github.com/filecoin-project/go-statemachine/fsm.Group).") {
+				continue
+			}
+			n++
+			recv := r.d.Of(ci.Common().Value)
+			r.c.Check(recv == "c.stateMachines", "C13.4", "gated:"+r.siteKey(ci), r.p.InstrPos(ci), "through the readiness-gated group", "state accessed through "+recv+" instead of the versioned (readiness-gated) group")
+		}
+	}
+	r.c.Floor("C13.4", n, 8, "state machine group calls in package channels")
+	// nothing else constructs a state machine group
+	for _, fn := range r.p.Prod {
+		for _, ci := range core.CallSites(fn) {
+			name := r.p.CalleeName(ci.Common())
+			if name == "github.com/filecoin-project/go-statemachine/fsm.New" || name == "github.com/filecoin-project/go-statemachine.New" {
+				r.c.Bad("C13.4", "ungated-group:"+core.ShortFn(fn), r.p.InstrPos(ci), "a state machine group is constructed directly (not through the versioned FSM): its operations are not gated on migration")
+			}
+		}
+	}
+}
+
+func c13Ready(r *R) {
+	cl := r.fn("C13.5", "impl", "manager", "Start$1")
+	if cl == nil {
+		return
+	}
+	st := r.one("C13.5", cl, "(*channels.Channels).Start")
+	if st == nil {
+		return
+	}
+	pub := r.p.Is("(*github.com/hannahhoward/go-pubsub.PubSub).Publish")
+	for i, pt := range r.pathsOf("C13.5", cl) {
+		n := 0
+		ok := true
+		for _, ev := range pt.Evs {
+			if pub(ev) && pt.ArgDesc(ev, -1) == "m.readySub" {
+				n++
+				if pt.ArgDesc(ev, 0) != r.v(st) {
+					ok = false
+				}
+			}
+		}
+		r.c.Check(n == 1 && ok, "C13.5", fmt.Sprintf("ready-published#%d", i+1), r.p.Pos(cl.Pos()), "readiness published once with the migration outcome", "readiness is not published exactly once with the result of channels.Start: "+pt.Describe())
+	}
+	// only Start publishes readiness; it runs the closure in a goroutine once
+	n := 0
+	for _, fn := range r.p.Prod {
+		for _, ci := range core.CallSites(fn) {
+			if r.p.CalleeName(ci.Common()) == "(*github.com/hannahhoward/go-pubsub.PubSub).Publish" && strings.HasSuffix(r.d.Of(ci.Common().Args[0]), ".readySub") {
+				n++
+				r.c.Check(fn == cl, "C13.5", "ready-publisher:"+core.ShortFn(fn), r.p.InstrPos(ci), "published by manager.Start", "readiness published from "+core.ShortFn(fn))
+			}
+		}
+	}
+	r.c.Floor("C13.5", n, 1, "publishers of readiness")
+	// OnReady subscribes to the same pubsub
+	if or := r.fn("C13.5", "impl", "manager", "OnReady"); or != nil {
+		s := r.one("C13.5", or, "(*github.com/hannahhoward/go-pubsub.PubSub).Subscribe")
+		if s != nil {
+			r.argIs("C13.5", s, -1, "m.readySub", "the pubsub listeners are registered on")
+			r.argIs("C13.5", s, 0, "ready", "the listener registered")
+		}
+	}
+	// readyDispatcher calls the listener with the published error
+	if rd := r.fn("C13.5", "impl", "", "readyDispatcher"); rd != nil {
+		n := 0
+		for _, ci := range core.CallSites(rd) {
+			if strings.HasPrefix(r.p.CalleeName(ci.Common()), "dyn:") && len(ci.Common().Args) == 1 {
+				n++
+				got := r.d.Of(ci.Common().Args[0])
+				r.c.Check(got == "evt.(error)?#0", "C13.5", "ready-dispatch", r.p.InstrPos(ci), "listener receives the migration outcome", "the ready listener is called with "+got)
+			}
+		}
+		r.c.Floor("C13.5", n, 1, "listener calls in readyDispatcher")
+	}
 }
